@@ -915,10 +915,13 @@ fn get_dictionary_values(
 
 /// Read the data for a given block
 fn read_block<R: Read + Seek>(mut reader: R, block: &Block) -> Result<Buffer, ArrowError> {
-    reader.seek(SeekFrom::Start(block.offset() as u64))?;
-    let body_len = block.bodyLength().to_usize().unwrap();
-    let metadata_len = block.metaDataLength().to_usize().unwrap();
-    let total_len = body_len.checked_add(metadata_len).unwrap();
+    // The block comes from the file footer: none of its fields can be trusted
+    let invalid = || ArrowError::ParseError(format!("Invalid IPC block in footer: {block:?}"));
+    let offset = u64::try_from(block.offset()).map_err(|_| invalid())?;
+    reader.seek(SeekFrom::Start(offset))?;
+    let body_len = block.bodyLength().to_usize().ok_or_else(invalid)?;
+    let metadata_len = block.metaDataLength().to_usize().ok_or_else(invalid)?;
+    let total_len = body_len.checked_add(metadata_len).ok_or_else(invalid)?;
 
     let mut buf = MutableBuffer::try_from_len_zeroed(total_len)
         .map_err(|e| ArrowError::MemoryError(e.to_string()))?;
